@@ -48,74 +48,102 @@ def expected_der(dom, kind, pv, e):
 
 
 def emit_rules(run, db):
+    """The general (symbolic order list) decision per sequence function; where the ORDER engine cannot follow a function (its
+    recurrence is organised in a way it does not read), the function is decided for fixed order lists instead
+    (sa/rules/fixedorders.py) -- bounded, stated in the evidence -- and only if that is not possible either the run refuses."""
     table = [(q, fam, pn, None) for q, (fam, pn) in sorted(PF.SEQ_FUNS.items())] + [(q, fam, pn, kind) for q, (fam, pn, kind) in sorted(DER_SEQ.items())]
+    undecided = []
     for qual, fam, pnames, der in table:
-        f = db.func(qual)
-        it, dom = PF.mk_order(db)
-        R = dom.R
-        kw = lambda: dict({'ns': SeqV('ns'), 'x': dom.sym('x')}, **{p: dom.sym(p) for p in pnames})
-        res = it.run(f, kwargs=kw)
-        pv = {p: Rat(R.atom(p)) for p in pnames}
-        pv_loop = pv if der != 'jacobi' else {'alpha': pv['alpha'] + 1, 'beta': pv['beta'] + 1}
-        seen = set()
-        log_obligations(run, dom, 'C08.emit', seen)
-        nstores = 0
-        keyseen = set()
-        bound_ok = None
-        for e in dom.log:
-            if e['kind'] == 'bound' and e['fn'] == qual:
-                want = Rat(R.atom('ns[%s]' % Rat(R.const(-1)).key())) + 1
-                bound_ok = (e['hi'] == want, e['hi'])
-        if bound_ok is None:
-            raise AnalysisError('%s: recurrence loop not analysed' % qual)
-        run.check(bound_ok[0], 'C08.emit', f.qual, 'loop bound', 'the sweep runs up to the last requested order (ns[-1])',
-                  'the recurrence sweep stops at %s, expected ns[-1] + 1 (exclusive)' % bound_ok[1].key(), f.loc())
-        for p in res:
-            outs = [e['store'] for e in p.events if e['kind'] == 'emit']
-            # pre-loop stores must use consecutive indices 0, 1, 2 ...
-            k = 0
-            for st in outs:
-                ri = dom.rat(st['idx'])
-                if ri is not None and ri.num.is_const() and ri.den.is_const():
-                    if not (ri == Rat(R.const(k))):
-                        run.finding('C08.emit', f.qual, 'slot order', 'mode stored in slot %s but %d mode(s) were stored before it: requested order and output order disagree' % (ri.key(), k), f.loc(st['node']))
-                    k += 1
-            for st in outs:
-                nstores += 1
-                g = st['guard']
-                val = dom.rat(st['value'])
-                ri = dom.rat(st['idx'])
-                if g is None or val is None or ri is None:
-                    raise AnalysisError('%s: store %s has no analysable guard/value (guard %r)' % (qual, ast.unparse(st['node']), g))
-                text, lhs, rhs = g
-                rl, rr = dom.rat(lhs), dom.rat(rhs)
-                # which slot of ns does the guard test?
-                ats = [a for a in rl.atoms() if a.startswith('ns[')]
-                if len(ats) != 1:
-                    raise AnalysisError('%s: guard %s does not test one element of ns' % (qual, text))
-                gidx = ats[0][3:-1]
-                order = rr - (rl - Rat(R.atom(ats[0])))          # ns[j] + shift == rhs  ->  ns[j] == rhs - shift
-                key = (ri.key(), gidx, order.key(), val.key())
-                if key in keyseen:
-                    continue
-                keyseen.add(key)
-                run.check(ri.key() == gidx, 'C08.emit', f.qual, 'slot %s' % ast.unparse(st['node'].targets[0]) if hasattr(st['node'], 'targets') else 'slot',
-                          'the mode is stored in the slot whose requested order was tested', 'mode stored in slot %s under a test of ns[%s]' % (ri.key(), gidx), f.loc(st['node']))
-                if der is None:
-                    want = expected_value(dom, fam, pv, order)
-                else:
-                    want = expected_der(dom, der, pv, order)
-                got = val
-                c = dom.canon(val, fam, pv_loop)
-                ok = (val == want) or (c is not None and c == want)
-                if not ok and der is not None:
-                    # coef * P[..]: canonicalise the polynomial factor
-                    ok = _scaled_equal(dom, val, want, fam, pv_loop)
-                run.check(ok, 'C08.emit', f.qual, 'value for guard %s' % text.replace('min_i', 'k'),
-                          'under `%s` the stored value denotes order %s' % (text, order.key()),
-                          'under the guard `%s` the stored value is %s, which is not the order-%s %s (expected %s)' % (text, val.key(), order.key(), 'derivative' if der else 'polynomial', want.key()), f.loc(st['node']))
-        if nstores < 4:
-            raise AnalysisError('%s: fewer than 4 emission stores analysed' % qual)
+        try:
+            _emit_one(run, db, qual, fam, pnames, der)
+        except AnalysisError as e:
+            undecided.append((qual, str(e)))
+    if undecided:
+        from . import fixedorders as FO
+        for qual, msg in undecided:
+            short = qual.split('prysm.polynomials.', 1)[-1]
+            fams = [f_ for f_ in FO.FAMILIES if f_[0] == short]
+            if not fams:
+                raise AnalysisError(msg)
+            try:
+                results = FO.compare_family(db, fams[0][0], fams[0][1], fams[0][2], fams[0][3], FO.ORDER_LISTS)
+            except (AnalysisError, RecursionError):
+                raise AnalysisError(msg)
+            fs = db.func(qual)
+            for label, bad in results:
+                run.check(not bad, 'C08.emit', fs.qual, 'fixed orders: ' + label, 'slot i of %s equals the single-order function of the order requested there (decided for fixed order lists; the general rule does not read this organisation of the routine)' % label,
+                          '%s: %s' % (label, '; '.join(bad[:3])), fs.loc())
+            if hasattr(run, 'info'):
+                run.info('C08.emit: %s decided for fixed order lists only (%s)' % (short, msg[:120]))
+
+
+def _emit_one(run, db, qual, fam, pnames, der):
+    f = db.func(qual)
+    it, dom = PF.mk_order(db)
+    R = dom.R
+    kw = lambda: dict({'ns': SeqV('ns'), 'x': dom.sym('x')}, **{p: dom.sym(p) for p in pnames})
+    res = it.run(f, kwargs=kw)
+    pv = {p: Rat(R.atom(p)) for p in pnames}
+    pv_loop = pv if der != 'jacobi' else {'alpha': pv['alpha'] + 1, 'beta': pv['beta'] + 1}
+    seen = set()
+    log_obligations(run, dom, 'C08.emit', seen)
+    nstores = 0
+    keyseen = set()
+    bound_ok = None
+    for e in dom.log:
+        if e['kind'] == 'bound' and e['fn'] == qual:
+            want = Rat(R.atom('ns[%s]' % Rat(R.const(-1)).key())) + 1
+            bound_ok = (e['hi'] == want, e['hi'])
+    if bound_ok is None:
+        raise AnalysisError('%s: recurrence loop not analysed' % qual)
+    run.check(bound_ok[0], 'C08.emit', f.qual, 'loop bound', 'the sweep runs up to the last requested order (ns[-1])',
+              'the recurrence sweep stops at %s, expected ns[-1] + 1 (exclusive)' % bound_ok[1].key(), f.loc())
+    for p in res:
+        outs = [e['store'] for e in p.events if e['kind'] == 'emit']
+        # pre-loop stores must use consecutive indices 0, 1, 2 ...
+        k = 0
+        for st in outs:
+            ri = dom.rat(st['idx'])
+            if ri is not None and ri.num.is_const() and ri.den.is_const():
+                if not (ri == Rat(R.const(k))):
+                    run.finding('C08.emit', f.qual, 'slot order', 'mode stored in slot %s but %d mode(s) were stored before it: requested order and output order disagree' % (ri.key(), k), f.loc(st['node']))
+                k += 1
+        for st in outs:
+            nstores += 1
+            g = st['guard']
+            val = dom.rat(st['value'])
+            ri = dom.rat(st['idx'])
+            if g is None or val is None or ri is None:
+                raise AnalysisError('%s: store %s has no analysable guard/value (guard %r)' % (qual, ast.unparse(st['node']), g))
+            text, lhs, rhs = g
+            rl, rr = dom.rat(lhs), dom.rat(rhs)
+            # which slot of ns does the guard test?
+            ats = [a for a in rl.atoms() if a.startswith('ns[')]
+            if len(ats) != 1:
+                raise AnalysisError('%s: guard %s does not test one element of ns' % (qual, text))
+            gidx = ats[0][3:-1]
+            order = rr - (rl - Rat(R.atom(ats[0])))          # ns[j] + shift == rhs  ->  ns[j] == rhs - shift
+            key = (ri.key(), gidx, order.key(), val.key())
+            if key in keyseen:
+                continue
+            keyseen.add(key)
+            run.check(ri.key() == gidx, 'C08.emit', f.qual, 'slot %s' % ast.unparse(st['node'].targets[0]) if hasattr(st['node'], 'targets') else 'slot',
+                      'the mode is stored in the slot whose requested order was tested', 'mode stored in slot %s under a test of ns[%s]' % (ri.key(), gidx), f.loc(st['node']))
+            if der is None:
+                want = expected_value(dom, fam, pv, order)
+            else:
+                want = expected_der(dom, der, pv, order)
+            got = val
+            c = dom.canon(val, fam, pv_loop)
+            ok = (val == want) or (c is not None and c == want)
+            if not ok and der is not None:
+                # coef * P[..]: canonicalise the polynomial factor
+                ok = _scaled_equal(dom, val, want, fam, pv_loop)
+            run.check(ok, 'C08.emit', f.qual, 'value for guard %s' % text.replace('min_i', 'k'),
+                      'under `%s` the stored value denotes order %s' % (text, order.key()),
+                      'under the guard `%s` the stored value is %s, which is not the order-%s %s (expected %s)' % (text, val.key(), order.key(), 'derivative' if der else 'polynomial', want.key()), f.loc(st['node']))
+    if nstores < 4:
+        raise AnalysisError('%s: fewer than 4 emission stores analysed' % qual)
 
 
 def _scaled_equal(dom, val, want, fam, pv):
